@@ -39,7 +39,8 @@ vars == <<bind, made, freed, nfree, hist>>
 
 None == [k |-> "none", t |-> 0]
 \* "empty" = a sparse output that stores nothing (the kernel's final realloc(crd, 0) may return NULL)
-Kinds == {"sparse", "dense", "scalar", "empty"}
+\* "reordered" = a sparse output produced through TensorMethod(Problem(...)) whose formats do not list the target first
+Kinds == {"sparse", "dense", "scalar", "empty", "reordered"}
 
 Reachable(t) == \E n \in Names : bind[n].t = t /\ bind[n].k \in {"tensor", "struct"}
 Garbage == {t \in 1..Len(made) : made[t].kernel /\ ~Reachable(t) /\ t \notin freed}
